@@ -380,6 +380,11 @@ pub fn consumer(entry: usize, plan: &Plan, aux: usize) -> &'static str {
             "io-copy"
         }
         _ => {
+            if aux % 2 == 0 {
+                // IntoIterator for Chain
+                let v: Vec<u8> = IntoIterator::into_iter(Buf::chain(lying(), &b"xyz"[..])).take(200).collect();
+                touch(&v);
+            }
             let mut c = lying().chain(lying());
             c.advance(aux % 70);
             let _ = c.chunk().len();
